@@ -30,10 +30,14 @@ CapsOf(ctor, c) ==
     [] ctor = "arcdirect" -> c \cup Forced
     [] ctor = "inverse"   -> c \cup Forced \cup (IF DIST_IN \in c THEN {DIST} ELSE {})
 
-\* third point after construction / SetDistance / SetArc: <<Distance() is a number, Arc() is a number>>
-Third(ctor, caps, setop) ==
-  CASE setop = "setdist" -> <<TRUE, DIST_IN \in caps>>
-    [] setop = "setarc"  -> <<DIST \in caps, TRUE>>
+\* third point after construction and a sequence of SetDistance / SetArc / GenSetDistance calls: the LAST call defines it
+\* <<Distance() is a number, Arc() is a number>>
+LastOp(so) == CASE so \in {"setdist", "setarc+setdist", "gsetdist"} -> "setdist"
+                [] so \in {"setarc", "setdist+setarc", "gsetarc"} -> "setarc"
+                [] OTHER -> "none"
+Third(ctor, caps, so) ==
+  CASE LastOp(so) = "setdist" -> <<TRUE, DIST_IN \in caps>>
+    [] LastOp(so) = "setarc"  -> <<DIST \in caps, TRUE>>
     [] OTHER ->
        CASE ctor = "line"      -> <<FALSE, FALSE>>
          [] ctor = "direct"    -> <<TRUE, TRUE>>
